@@ -23,7 +23,7 @@ pub struct Built {
 
 fn hostile_world(rng: &mut Rng) -> (World, &'static str) {
     let mut w = World::default();
-    let which = rng.usize(25);
+    let which = rng.usize(27);
     let label: &'static str;
     let text: String = match which {
         0 => {
@@ -258,6 +258,32 @@ fn hostile_world(rng: &mut Rng) -> (World, &'static str) {
             s.push_str("  x = x + 1;\n");
             s.push_str(&"  }\n".repeat(d));
             s.push_str("  return x;\n}\n");
+            s
+        }
+        25 => {
+            label = "nested-anonymous-components";
+            // anonymous components nested in input position
+            let d = 4 + rng.usize(36);
+            let named = rng.chance(1, 3);
+            let mut e = String::from("a");
+            for _ in 0..d {
+                e = if named { format!("Id()(x <== {e})") } else { format!("Id()({e})") };
+            }
+            format!("pragma circom 2.1.0;\ntemplate Id() {{\n  signal input x;\n  signal output y;\n  y <== x;\n}}\ntemplate T() {{\n  signal input a;\n  signal output b;\n  b <== {e};\n}}\n")
+        }
+        26 => {
+            label = "signal-chain";
+            // a straight-line chain of signals, each computed from the one before
+            let n = 20 + rng.usize(380);
+            let mut s = String::from("pragma circom 2.0.0;\ntemplate T() {\n  signal input a;\n  signal output b;\n");
+            for k in 0..n {
+                s.push_str(&format!("  signal s{k};\n"));
+            }
+            s.push_str("  s0 <== a * a;\n");
+            for k in 1..n {
+                s.push_str(&format!("  s{k} <== s{} * a;\n", k - 1));
+            }
+            s.push_str(&format!("  b <== s{};\n}}\n", n - 1));
             s
         }
         17 => {
